@@ -85,3 +85,34 @@ Proof.
   apply in_map_iff. exists v. split; [|exact Hv].
   unfold mean_spacing. destruct (Nat.ltb_spec (length v) 2); [reflexivity | lia].
 Qed.
+
+(* ---------- export: coordinates are the cell centres ---------- *)
+Lemma export_centres (f : field) (u : option string) : wf_field f ->
+  let m := fmesh f in
+  xcoords (to_xarray f u) = cells m /\
+  length (cells m) = length (pmin (reg m)) /\
+  forall a, (a < length (pmin (reg m)))%nat ->
+    length (nth a (cells m) []) = Z.to_nat (nth a (n m) 1%Z) /\
+    forall j, (0 <= j < nth a (n m) 1%Z)%Z ->
+      nth (Z.to_nat j) (nth a (cells m) []) 0 ==
+      nth a (pmin (reg m)) 0 + (inject_Z j + (1 # 2)) * nth a (cell m) 0.
+Proof.
+  intros [Hwf _] m. split; [reflexivity|].
+  destruct (wf_lengths m Hwf) as [L1 [L2 L3]].
+  split; [unfold cells; rewrite map3_length; lia|].
+  intros a Ha.
+  destruct (wf_axis m Hwf a Ha) as [Hlh Hk].
+  assert (E : nth a (cells m) [] =
+              cells_axis (nth a (pmin (reg m)) 0) (nth a (pmax (reg m)) 0) (nth a (n m) 1%Z)).
+  { unfold cells. apply nth_map3; lia. }
+  rewrite E. unfold cells_axis, linspace. split.
+  - rewrite map_length, ziota_length. reflexivity.
+  - intros j Hj.
+    set (lo := nth a (pmin (reg m)) 0) in *. set (hi := nth a (pmax (reg m)) 0) in *.
+    set (k := nth a (n m) 1%Z) in *.
+    set (g := linspace_at (lo + cell_of lo hi k / 2) (hi - cell_of lo hi k / 2) k).
+    rewrite (nth_indep _ 0 (g 0%Z)) by (rewrite map_length, ziota_length; lia).
+    rewrite map_nth, nth_ziota by lia. rewrite Z2Nat.id by lia. simpl (0 + j)%Z.
+    unfold g. rewrite (cells_axis_nth lo hi k Hlh Hk j Hj), (centre_formula lo hi k).
+    rewrite (cell_nth m Hwf a Ha). reflexivity.
+Qed.
